@@ -180,18 +180,33 @@ def ill_conditioned(e, st, name):
         if d == 0 and math.copysign(1.0, d) < 0:
             return True         # division by negative zero: ℚ has no signed zero
     if e[1] == "%":
-        from fractions import Fraction
+        # any rounding inside an operand makes the result unpredictable for the model (which re-reads cached
+        # intermediate values from their printed text), even when the f64 operand comes out integral or exact
         for sub in (e[2], e[3]):
             v = evaluate(sub, st, name)
             if math.isnan(v) or math.isinf(v):
                 continue
-            if v != int(v):
-                return True
-            # a rounded operand that happens to be integral in f64 is just as unpredictable for the model
-            x = exact(sub, st, name)
-            if x is None or Fraction(v) != x:
+            if v != int(v) or rounded_inside(sub, st, name):
                 return True
     return False
+
+
+def rounded_inside(e, st, name):
+    """does any sub-expression of `e` have an f64 value different from its value in ℚ?"""
+    from fractions import Fraction
+    v = evaluate(e, st, name)
+    if not (math.isnan(v) or math.isinf(v)):
+        x = exact(e, st, name)
+        if x is None or Fraction(v) != x:
+            return True
+    k = e[0]
+    if k in ("lit", "col", "len"):
+        return False
+    if k == "neg":
+        return rounded_inside(e[1], st, name)
+    if k == "call":
+        return any(rounded_inside(a, st, name) for a in e[2])
+    return rounded_inside(e[2], st, name) or rounded_inside(e[3], st, name)
 
 
 def cell_value(cell):
